@@ -18,7 +18,7 @@ import rows as R
 # ------------------------------------------------------------------ rows with audit info
 def prow(t):
     r, info = R.snap_term(t)
-    r["_dev"], r["_exact"], r["_ok"] = info["dev"], info["exact"], info["ok"]
+    r["_dev"], r["_exact"], r["_ok"], r["_eqok"] = info["dev"], info["exact"], info["ok"], info["eqok"]
     return r
 
 
